@@ -37,8 +37,11 @@ def check(run, only=None):
                 lv.append(v)
             else:
                 lv.append(dict(v, k="render", loader=("fs", "memory")[j % 2], id=v["id"] + "/ldr", nolog=True))
+                # ... and plainly, which also runs the program into a *bytes.Buffer: what the caller's writer holds after a failure
+                # is the same prefix whatever the writer's type
+                lv.append(dict(v, k="render", id=v["id"] + "/buf", nolog=True))
         common.replay_vectors(run, lv, nontrivial=lambda v: v["exp"]["status"] == "err", check_log=False,
-                              sigfn=lambda v, o, why: "C17 through the %s loader: %s [%s]" % (v.get("loader"), why.split(":")[0], v.get("fam")))
+                              sigfn=lambda v, o, why: "C17 through the %s loader: %s [%s]" % (v.get("loader") or "recording", why.split(":")[0], v.get("fam")))
         if only is not None:
             return
     progs = [v for v in vecs if not v.get("oom")]
